@@ -147,7 +147,9 @@ def merge_states(states):
     # name the branch guards (keeps merged ITE terms small: the guard formula occurs once, in its definition)
     guards = []
     for g in raw:
-        if z3.is_const(g) or (z3.is_not(g) and z3.is_const(g.arg(0))) or is_true(g) or is_false(g):
+        if not NAMING[0]:
+            guards.append(g)
+        elif z3.is_const(g) or (z3.is_not(g) and z3.is_const(g.arg(0))) or is_true(g) or is_false(g):
             guards.append(g)
         else:
             b = z3.Bool(fresh_name("br"))
@@ -195,7 +197,12 @@ def _name_value(out, v, hint):
     return v
 
 
+NAMING = [True]     # spec_term() needs closed terms: it switches naming of merged values off
+
+
 def _name_merged(out):
+    if not NAMING[0]:
+        return
     seen = set()
     for fr in out.frames:
         f = fr
